@@ -301,6 +301,8 @@ func (e *C17) syncLevel(ctx *core.Ctx) {
 	eds.UID = "uid-eds"
 	eds.Spec.Strategy.RollingUpdate.MaxUnavailable = kit.PS("100%")
 	eds.Spec.Strategy.RollingUpdate.SlowStartAdditiveIncrease = kit.IS(100)
+	// the usual ten seconds, or legal extremes: whatever the frequency, a sync reports what failed
+	eds.Spec.Strategy.ReconcileFrequency = &metav1.Duration{Duration: []time.Duration{10 * time.Second, 0, time.Millisecond, 48 * time.Hour}[r.Intn(4)]}
 	rsB := kit.NewRS(s, eds, "foo-b", tplTol("B", r.Intn(3)), kit.T0.Add(-time.Hour))
 	eds.Status.ActiveReplicaSet = "foo-b"
 	n := 4 + r.Intn(12)
